@@ -73,21 +73,42 @@ def check_static(lin, n: int, ex, R: frozenset, what: str, state_ret=None) -> st
 
 
 def unit(u) -> Stats:
-    n, v, comp, gap_name, budget, tag, max_depth = u
-    if isinstance(v, tuple) and v and v[0] == "GEN":
-        v = gens.draw(v[1], v[2], v[3])
+    n, vs, comp, gap_name, budget, tag, max_depth = u
+    games = []
+    for v in (vs if isinstance(vs, list) else [vs]):
+        if isinstance(v, tuple) and v and v[0] == "GEN":
+            v = gens.draw(v[1], v[2], v[3])
+        games.append(tuple(v))
     st = Stats()
-    doc0 = {"n": n, "values": list(v), "computer": comp, "gap": gap_name, "budget": budget, "tag": tag}
-    script = envs.Script([v])
+    doc0 = {"n": n, "games": [list(g) for g in games], "computer": comp, "gap": gap_name, "budget": budget, "tag": tag}
+    script = envs.Script(games)
     lin = envs.make_env(n, script, comp, gaps.registry()[gap_name], budget, linear=True)
     ex = envs.explorable(lin.icg_gym)
-    ret = lin.reset()
-    msg = check_static(lin, n, ex, frozenset(), "after reset", ret[0])
-    if msg:
-        st.violation(f"[linear {tag} n={n}] {msg}", history=[], **doc0)
-        return st
+    # episodes: the env object lives on; every episode starts with reset() and is explored completely; the object that enters the
+    # next episode is one that has just finished an episode (state carried across resets travels along)
+    carry = lin
+    for episode in range(len(games) + 1):
+        ret = carry.reset()
+        v = games[(carry.icg_gym.generator.calls - 1) % len(games)]
+        prefix = [("episode", episode)]
+        msg = check_static(carry, n, ex, frozenset(), f"after reset #{episode + 1}", ret[0])
+        if msg:
+            st.violation(f"[linear {tag} n={n}] {msg}", history=[list(h) for h in prefix], **doc0)
+            return st
+        carry = explore_episode(st, carry, n, ex, v, comp, gap_name, tag, max_depth, doc0, prefix)
+        if carry is None or st.nviol >= 3:
+            break
+    st.traces += 1
+    if n == 4 and tag.startswith("exact"):
+        st.sample({"n": n, "hidden_games": [list(g) for g in games], "transitions": "(size k, candidate j), reset between episodes"})
+    return st
+
+
+def explore_episode(st: Stats, lin, n, ex, v, comp, gap_name, tag, max_depth, doc0, prefix):
+    """BFS over (size, candidate) transitions of one episode; returns an env object at the end of a longest path (to be reset next)."""
     seen = {frozenset()}
-    frontier = [(lin, frozenset(), [])]
+    frontier = [(lin, frozenset(), list(prefix))]
+    last = lin
     depth = 0
     ctl = Choice()
     consulted_always = True
@@ -148,11 +169,12 @@ def unit(u) -> Stats:
                     if msg:
                         st.violation(f"[linear {tag} n={n} {comp} {gap_name}] at revealed {sorted(ex[a] for a in R)}: {msg}", history=[list(h) for h in h2], **doc0)
                         if st.nviol >= 3:
-                            return st
+                            return None
                     elif R2 not in seen:
                         seen.add(R2)
                         st.states += 1
                         nxt.append((e2, R2, h2))
+                        last = e2
                     j += 1
                     if len(ctl.calls) != 1:
                         break
@@ -160,12 +182,9 @@ def unit(u) -> Stats:
         depth += 1
     st.states += 1
     st.nontrivial += len(seen)
-    st.traces += 1
     if not consulted_always:
         st.note("random source of the linear env is no longer numpy.random.choice: exploration of tie-breaks is incomplete (not a violation)")
-    if n == 4 and tag.startswith("exact"):
-        st.sample({"n": n, "hidden": list(v), "transitions": "(size k, candidate j)", "states": len(seen)})
-    return st
+    return last
 
 
 def snapshot_linear(lin):
@@ -182,20 +201,31 @@ def run(run: Run) -> None:
     us = []
     g3 = A.a3_sa()
     reps = A.a4_sa_reps(seed)
+    any3 = A.a3_any()
     for k in range(3):
-        us.append((3, A.shifted(g3[(53 * (seed + 1) + 401 * k) % len(g3)], A.ADD3), ("superadditive", "superadditive_cached")[k % 2],
-                   gaps.NAMES[k % 4], (None, 2, 3)[k], f"exact3#{k}", None))
+        us.append((3, [A.shifted(g3[(53 * (seed + 1) + 401 * k) % len(g3)], A.ADD3), g3[(11 * (seed + 2) + 97 * k) % len(g3)]],
+                   ("superadditive", "superadditive_cached")[k % 2], gaps.NAMES[k % 4], (None, 2, 3)[k], f"exact3#{k}", None))
+    # the abstraction must be faithful whatever the hidden game is: games that are NOT superadditive (negative normalised values)
+    nonsa = [g for g in any3 if not A.is_superadditive(g) and g[7] - g[1] - g[2] - g[4] > 0]
+    for k in range(2):
+        g = nonsa[(101 * (seed + 1) + 977 * k) % len(nonsa)]
+        us.append((3, [g, A.shifted(g, A.ADD3)], "superadditive_cached", gaps.NAMES[k], None, f"nonsa3#{k}", None))
+    us.append((4, [tuple(float((s * 7) % 5 - 2) if A.popcount(s) in (2, 3) else float(A.popcount(s) ** 2) if s else 0.0 for s in range(16))],
+               "superadditive_cached", "l1_norm", None, "nonsa4", None))
     us.append((3, ("GEN", "xos", 3, seed), "sam_apx_1", "l1_norm", None, "gen3:xos", None))
     for k in range(3):
-        us.append((4, A.shifted(reps[(7 * (seed + 1) + 59 * k) % len(reps)], A.ADD4), "superadditive_cached", ("l1_norm", "exploitability", "linf_norm")[k],
-                   (None, 3, 10)[k], f"exact4#{k}", None))
+        g4 = [A.shifted(reps[(7 * (seed + 1) + 59 * k) % len(reps)], A.ADD4)]
+        if k == 0:
+            g4.append(reps[(3 * (seed + 1)) % len(reps)])
+        us.append((4, g4, "superadditive_cached", ("l1_norm", "exploitability", "linf_norm")[k], (None, 3, 10)[k], f"exact4#{k}", None))
     us.append((4, ("GEN", "noisy_factory", 4, seed), "superadditive", "l1_norm", None, "gen4:noisy_factory", None))
     for k, name in enumerate(("factory", "graph_cycle", "k_budget_generator")):
         us.append((5, ("GEN", name, 5, seed + k), "superadditive_cached", "l1_norm", None, f"gen5:{name}", 3 if quick else 4))
     for k, name in enumerate(("factory_square", "xs", "graph_random")):
         us.append((6, ("GEN", name, 6, seed + k), "superadditive_cached", "l1_norm", None, f"gen6:{name}", 2))
     run.rule = ("BFS over the real ICG_Gym_Linear with numpy.random.choice owned by a choice controller: transitions are (allowed size k, candidate j) for "
-                "EVERY candidate; n=3,4 all states until done, n=5 depth <= 3 (thorough 4), n=6 depth <= 2; after reset and after every step: mask per "
+                "EVERY candidate, over several episodes (reset between them, differing scripted hidden games incl. non-superadditive ones) on one "
+                "long-lived env; n=3,4 all states until done, n=5 depth <= 3 (thorough 4), n=6 depth <= 2; after reset and after every step: mask per "
                 "size, candidates offered == unknown coalitions of that size, exactly one new coalition of size k revealed and reported, reward/done == "
                 "underlying env, observation == per-size sum of the underlying observation (length n). non-trivial = distinct revealed sets")
     run.bounds = {"n": [3, 4, 5, 6], "n5_depth": 3 if quick else 4, "n6_depth": 2, "configurations": len(us)}
@@ -204,28 +234,8 @@ def run(run: Run) -> None:
 
 
 def replay(doc: dict):
-    n, v = doc["n"], doc["values"]
-    lin = envs.make_env(n, envs.Script([v]), doc["computer"], gaps.registry()[doc["gap"]], doc.get("budget"), linear=True)
-    ex = envs.explorable(lin.icg_gym)
-    lin.reset()
-    ctl = Choice()
-    msg = None
-    R = frozenset()
-    try:
-        for _, k, j in [tuple(h) for h in doc["history"]]:
-            ctl.want = j
-            cands = [a for a in range(len(ex)) if a not in R and A.popcount(ex[a]) == k]
-            with ctl:
-                ret = lin.step(k)
-            R2 = inner_known(lin)
-            if len(ctl.calls) == 1 and sorted(int(x) for x in ctl.calls[0].tolist()) != cands:
-                msg = f"step(size {k}) sampled among {sorted(int(x) for x in ctl.calls[0].tolist())}, unknown of that size: {cands}"
-            elif len(R2 - R) != 1 or A.popcount(ex[next(iter(R2 - R))]) != k or ret[4].get("chosen_coalition") != ex[next(iter(R2 - R))]:
-                msg = f"step(size {k}) revealed {[ex[a] for a in R2 - R]} / info {ret[4]}"
-            R = R2
-            msg = msg or check_static(lin, n, ex, R, f"after step(size {k})", ret[0])
-            if msg:
-                break
-    except Exception as e:  # noqa: BLE001
-        msg = f"raised {type(e).__name__}: {e}"
-    return bool(msg), f"linear env replay {doc['history']}: {msg or 'faithful abstraction on this history'}"
+    games = [tuple(g) for g in doc.get("games", [doc.get("values")])]
+    st = unit((doc["n"], games, doc["computer"], doc["gap"], doc.get("budget"), doc.get("tag", "replay"),
+               None if doc["n"] <= 4 else 3))
+    msgs = [v["message"] for v in st.violations]
+    return bool(msgs), "; ".join(msgs[:3]) if msgs else "linear env is a faithful abstraction on this configuration"
